@@ -329,6 +329,66 @@ def make_cells(tier):
                               lambda c: ["tiny-pivots" if min(c["k"]) <= -15 else "moderate"], quick=60, thorough=1000,
                               build=lambda kind=kind, n=n: fact_fn(kind, n).build()))
 
+    # ---- measurement matrices given with structural zeros (what the estimators build: sparsify([H1, 0])): the update must
+    #      still treat the unmeasured states through their correlation in W
+    HPATS = {
+        "trailing_zero_cols": lambda n, m: [(i, j) for i in range(m) for j in range(n) if j < max(1, n // 2)],
+        "leading_zero_cols": lambda n, m: [(i, j) for i in range(m) for j in range(n) if j >= n // 2],
+        "selector": lambda n, m: [(i, i) for i in range(m)],
+        "staircase": lambda n, m: [(i, j) for i in range(m) for j in range(n) if j <= i + 1],
+    }
+
+    def sparse_correct_fn(n, m, pat):
+        k = ("corr_sp", n, m, pat)
+        if k not in _fn:
+            def mk():
+                idx = HPATS[pat](n, m)
+                W = ca.SX.sym("W", ca.Sparsity.lower(n))
+                H = ca.SX.sym("H", ca.Sparsity.triplet(m, n, [i for i, j in idx], [j for i, j in idx]))
+                Rs = ca.SX.sym("Rs", ca.Sparsity.lower(m))
+                Wp, K, Ss = util().sqrt_correct(Rs, H, W)
+                return [Rs, H, W], [ca.densify(Wp), ca.densify(K), ca.densify(Ss)]
+
+            _fn[k] = cy.Fn("sqrt_correct_sp_%d_%d_%s" % (n, m, pat), mk)
+        return _fn[k]
+
+    for pat in HPATS:
+        for n, m in ((4, 2), (6, 3), (5, 1)):
+            @st.composite
+            def spc_case(draw, n=n, m=m):
+                return {"W": draw(lower_tri(n, 0.05, 3.0)), "H": draw(dense(m, n, scales=(0,))), "Rs": draw(lower_tri(m, 0.05, 3.0))}
+
+            def check_spc(case, n=n, m=m, pat=pat):
+                idx = HPATS[pat](n, m)
+                mask = np.zeros((m, n))
+                for i, j in idx:
+                    mask[i, j] = 1.0
+                W, Rs = np.array(case["W"], float), np.array(case["Rs"], float)
+                H = np.array(case["H"], float) * mask
+                f = sparse_correct_fn(n, m, pat).build()
+                spH = ca.Sparsity.triplet(m, n, [i for i, j in idx], [j for i, j in idx])
+                rows, cols = spH.get_triplet()
+                Hdm = ca.DM(spH, [float(H[r_, c_]) for r_, c_ in zip(rows, cols)])
+                spL = lambda k_: ca.Sparsity.lower(k_)
+                lo = lambda M, k_: ca.DM(spL(k_), [float(M[r_, c_]) for r_, c_ in zip(*spL(k_).get_triplet())])
+                Wp, K, Ss = [np.array(o, float) for o in f.call([lo(Rs, m), Hdm, lo(W, n)])]
+                tag = "sqrt_correct(n=%d,m=%d) with a %s-sparse H" % (n, m, pat)
+                for nm_, M in (("W+", Wp), ("K", K), ("Ss", Ss)):
+                    if not np.all(np.isfinite(M)):
+                        raise Violation(tag + ": non-finite %s" % nm_, **case)
+                P = W @ W.T
+                S = H @ P @ H.T + Rs @ Rs.T
+                condS = float(np.linalg.cond(S))
+                sc = 1 + float(np.max(np.abs(P))) * (1 + float(np.max(np.abs(H)))) ** 2 + float(np.max(np.abs(Rs @ Rs.T)))
+                L.close(Ss @ Ss.T, S, tag + ": Ss Ss^T vs H P H^T + Rs Rs^T", atol=1e-11 * sc, rtol=0, **case)
+                Kw = P @ H.T @ np.linalg.inv(S)
+                L.close(K, Kw, tag + ": K vs P H^T S^-1", atol=1e-10 * condS * (1 + float(np.max(np.abs(Kw)))), rtol=0, **case)
+                tri_check(Wp, tag + ": W+", 1e-12 * sc, **case)
+                L.close(Wp @ Wp.T, (np.eye(n) - Kw @ H) @ P, tag + ": W+ W+^T vs (I - K H) P", atol=1e-10 * condS * sc, rtol=0, **case)
+
+            cells.append(Cell("correct/sparseH_%s_n%d_m%d" % (pat, n, m), spc_case(), check_spc, lambda c: True, None, quick=30, thorough=500,
+                              build=lambda n=n, m=m, pat=pat: sparse_correct_fn(n, m, pat).build()))
+
     # ---- measurement update with an accurate measurement (|Rs| << |H W|): the square-root form must keep the small
     #      posterior variance of the measured combination to relative accuracy (oracle: 50-digit arithmetic)
     import mpmath as mp
